@@ -6,7 +6,9 @@ import (
 	"go/constant"
 	"go/token"
 	"go/types"
+	"golang.org/x/tools/go/packages"
 	"strconv"
+	"strings"
 
 	"golang.org/x/tools/go/types/typeutil"
 )
@@ -235,6 +237,15 @@ func (b *Builder) global(v *types.Var) *Term {
 					switch fn.FullName() {
 					case "errors.New", "fmt.Errorf":
 						nonNilGlobals[name] = true
+					default:
+						// an object built once by an external constructor and never written again
+						// (neither the variable nor anything through it) is its constructor call
+						if fn.Pkg() != nil && !strings.HasPrefix(fn.Pkg().Path(), b.P.ModPath) && b.P.neverWritten(v) {
+							if t := b.closedInitTerm(pk, call); t != nil {
+								nonNilGlobals[name] = true
+								return t
+							}
+						}
 					}
 				}
 			}
@@ -664,4 +675,34 @@ func (b *Builder) builtin(name string, call *ast.CallExpr) []*Term {
 		b.pending = append(b.pending, t)
 	}
 	return []*Term{t}
+}
+
+// closedInitTerm evaluates a package-level initialiser call into a term that
+// mentions no local state (constants, other globals, nested external calls).
+func (b *Builder) closedInitTerm(pk *packages.Package, call *ast.CallExpr) *Term {
+	sub := &Builder{P: b.P, G: &Graph{P: b.P, Lits: map[string]*LitInfo{}}, info: pk.TypesInfo, vars: map[varKey]*Var{}, maxDepth: -1, noInline: map[string]bool{}}
+	sub.inst = &Instance{ID: 0, Name: "init"}
+	sub.G.Insts = append(sub.G.Insts, sub.inst)
+	sub.cur = sub.newNode(NNop, call.Pos())
+	defer func() { _ = recover() }()
+	t := sub.expr(call)
+	closed := true
+	var walk func(x *Term, d int)
+	walk = func(x *Term, d int) {
+		if x == nil || d > 12 {
+			return
+		}
+		switch x.Op {
+		case "var", "addrvar", "opaque", "closure", "param":
+			closed = false
+		}
+		for _, a := range x.Args {
+			walk(a, d+1)
+		}
+	}
+	walk(t, 0)
+	if !closed || t == nil || t.Op != "call" {
+		return nil
+	}
+	return t
 }
